@@ -513,6 +513,62 @@ def run_with_fuzz_scheduler(world):
     simulator.simulate()
 
 
+def run_direct(world):
+    """the simulator on TaskGraphs built directly (Workload.from_task_graphs), with the bundled policy named by the flags"""
+    from data import WorkerLoader
+    from data.base_workload_loader import BaseWorkloadLoader
+    from workload import (ExecutionStrategies, ExecutionStrategy, Job, Resource, Resources, Task, TaskGraph, WorkProfile,
+                          Workload)
+    import schedulers
+    random.seed(FLAGS.random_seed)
+    profs = {}
+    for p in world["workload"]["profiles"]:
+        strategies = ExecutionStrategies()
+        for st in p["execution_strategies"]:
+            res = {}
+            for k, q in st["resource_requirements"].items():
+                n, _, i = k.partition(":")
+                res[Resource(name=n, _id=i or "any")] = q
+            strategies.add_strategy(ExecutionStrategy(resources=Resources(res), batch_size=st.get("batch_size", 1),
+                                                      runtime=EventTime(st["runtime"], EventTime.Unit.US)))
+        profs[p["name"]] = WorkProfile(name=p["name"], execution_strategies=strategies)
+    graphs = {}
+    for g in world["direct"]["graphs"]:
+        tasks = {}
+        for t in g["tasks"]:
+            job = Job(name=t["name"], profile=profs[t["profile"]])
+            tasks[t["name"]] = Task(name=t["name"], task_graph=g["name"], job=job,
+                                    deadline=EventTime(t["deadline"], EventTime.Unit.US), timestamp=0,
+                                    release_time=(EventTime(t["release"], EventTime.Unit.US) if "release" in t
+                                                  else EventTime.invalid()))
+        graphs[g["name"]] = TaskGraph(name=g["name"],
+                                      tasks={tasks[t["name"]]: [tasks[c] for c in t["children"]] for t in g["tasks"]})
+
+    class DirectLoader(BaseWorkloadLoader):
+        def __init__(self):
+            self._done = False
+
+        def get_next_workload(self, current_time):
+            if self._done:
+                return None
+            self._done = True
+            return Workload.from_task_graphs(graphs, _flags=FLAGS)
+
+    rt = EventTime(FLAGS.scheduler_runtime, EventTime.Unit.US)
+    if FLAGS.scheduler == "EDF":
+        scheduler = schedulers.EDFScheduler(preemptive=False, runtime=rt, enforce_deadlines=False, _flags=FLAGS)
+    elif FLAGS.scheduler == "FIFO":
+        scheduler = schedulers.FIFOScheduler(preemptive=False, runtime=rt, _flags=FLAGS)
+    else:
+        scheduler = schedulers.LSFScheduler(preemptive=False, runtime=rt, _flags=FLAGS)
+    worker_loader = WorkerLoader(worker_profile_path=FLAGS.worker_profile_path, _flags=FLAGS)
+    simulator = Simulator(worker_pools=worker_loader.get_worker_pools(), scheduler=scheduler,
+                          workload_loader=DirectLoader(),
+                          loop_timeout=EventTime(FLAGS.loop_timeout, EventTime.Unit.US),
+                          scheduler_frequency=EventTime(FLAGS.scheduler_frequency, EventTime.Unit.US), _flags=FLAGS)
+    simulator.simulate()
+
+
 LOG_LIMIT = 150000
 
 
@@ -555,6 +611,8 @@ def run_world(world, tmpdir):
     try:
         if world.get("fuzz"):
             run_with_fuzz_scheduler(world)
+        elif world.get("direct"):
+            run_direct(world)
         else:
             erdos_main.main([])
     except Livelock as e:
